@@ -100,6 +100,13 @@ theorem prepare_assigns_as_modelled : prepareAssigns = ["accessList", "bhash", "
 
 theorem block_loop_as_modelled : vmexecFacts = ["accountdb.Prepare(transaction.Hash,common.Hash{},i)[common.IsProposal013()]", "accountdb.Snapshot", "txExecutor.Execute", "accountdb.RevertToSnapshot[!success]", "receipt.Logs=this.accountdb.GetLogs(transaction.Hash)", "accountdb.GetLogs(transaction.Hash)[common.IsProposal013()]", "receipt.Logs=logs.([]*types.Log)", "exec:vmInstance.Create", "exec:accountdb.SetNonce[!(transaction.Target == \"\") && common.IsProposal007()]", "exec:vmInstance.Call", "exec:context[logs]=logs"] := by decide
 
+/-- `addLogChange.undo`: the per-hash list shrinks (or disappears) and the block-wide counter `logSize` goes
+    back UNCONDITIONALLY, last statement, outside the branch -- so `Log.Index` of later logs does not count logs of
+    failed frames (model: `restore` gives `logSize` back; theorem `log_indices_consecutive`) -/
+theorem add_log_undo_as_modelled :
+    addLogUndo = "logs := s.logs[ch.txhash] ; if len(logs) == 1 { delete(s.logs, ch.txhash) } else { s.logs[ch.txhash] = logs[:len(logs)-1] } ; s.logSize--" := by
+  set_option maxRecDepth 4000 in decide
+
 /-- Which function on the C12 path consults which fork flag. The model takes `IsProposal013`,
     `IsProposal007`, `!IsProposal006 || IsProposal007` as inputs (`Cfg`), the harness derives the opcode
     availability (`Proposal014Block`, `Proposal022Block`) and the gas regime (`Proposal026`, `015`) from the
